@@ -35,6 +35,10 @@ EXTRA = [
     'select database()', 'select current_date, current_user from t', 'select a from t where b in (select c from u)',
     'select a from t where b in c', 'select max(a, b, c) from t', 'select - a, not b, -(-1) from t', 'select a as `x y` from t',
     'select * from int1 (select 1) as n', 'select last from t where a > last',
+    # placeholders in every position, with and without alias
+    'select ? as x from t', 'select ? as x', 'select a from t where b = ? and c in (?, ?) limit 2', 'select coalesce(?, 1) as c, ? from t',
+    'update t set a = ? where b = ?', 'delete from t where a = ?', 'select * from t where a between ? and ?',
+    'select a from t order by b nulls last, c desc nulls first', 'select a from t order by b Nulls Last',
     # rows shorter / longer than the column list, rows of different lengths
     'insert into t (a, b, c) values (1, 2)', 'insert into t (a, b) values (1), (2, 3)', 'insert into t (a) values (1, 2)',
     'insert into s.t (a, b, c, d) values (1), (2), (3)', "insert into t (a, b) values ('x')",
